@@ -26,8 +26,8 @@ ASSUMPTIONS = [
     'Rayleigh and Mie components are checked for proportionality to abundance / against C19, not against an independent cross-section',
     'H- (HydrogenIon) is generated with constant H and e- abundances: its absorption law is outside this property and is not judged; the product rule, order independence, single component and proportionality to the electron abundance are',
 ]
-RULE = RULE + ' ' + "Also: a chemistry that hands out the arrays it keeps instead of copies (class chemistry:stored); each source's own transmittance against exp(-sum sigma x density^(1|2) x chord) (source-path-integral); integer-axis world forms."
-REQUIRED = {'failed-evaluation-then-repaired': 0.06, 'chemistry:stored': 0.2, 'opacity:ktables': 0.06, 'has-hminus': 0.1, 'probe:contrib-first': 0.08, 'ncontrib>=2': 0.5, 'multi-component': 0.4, 'zero-species': 0.15, 'probe:fresh': 0.1,
+RULE = RULE + ' ' + "Also: a chemistry that hands out the arrays it keeps instead of copies (class chemistry:stored); each source's own transmittance against exp(-sum sigma x density^(1|2) x chord) (source-path-integral); integer-axis world forms. Round 10: the species that sat at exactly zero abundance is raised on the same live model and the result compared with a model built with that abundance (zero-species-raised)."
+REQUIRED = {'zero-species-raised': 0.08, 'failed-evaluation-then-repaired': 0.06, 'chemistry:stored': 0.2, 'opacity:ktables': 0.06, 'has-hminus': 0.1, 'probe:contrib-first': 0.08, 'ncontrib>=2': 0.5, 'multi-component': 0.4, 'zero-species': 0.15, 'probe:fresh': 0.1,
             'probe:subgrid': 0.1, 'probe:param-change': 0.1}
 POOL = ['Absorption', 'CIA', 'Rayleigh', 'SimpleClouds', 'FlatMie', 'LeeMie', 'HydrogenIon']
 
@@ -358,6 +358,28 @@ def check(case):
                not close(np.asarray(r3[2]), trans, rtol=1e-9, atol=1e-9):
                 out.fail('zero-abundance', 'adding a species at zero abundance changed the spectrum (max rel %.2e)'
                          % maxrel(r3[1], depth))
+        # ---- history: the species that sat at exactly zero is raised on the SAME live model (a retrieval moving an abundance up
+        # from nothing) and the model evaluated again: the same spectrum and transmittance as a model built with that abundance
+        if case['zero'] and len(wz['gases']) > len(w['gases']) and case['probe'] not in ('contrib-first', 'param-change'):
+            zmol = wz['gases'][-1]['mol']
+            if zmol in m.fittingParameters:
+                out.cls('zero-species-raised')
+                cut(out, 'build-world', build, wz)          # the judged model's tables back in the caches
+                m[zmol] = 1e-3
+                with np.errstate(all='ignore'):
+                    r5 = cut(out, 'model@zero-species-raised', m.model)
+                d5, t5 = np.array(r5[1], dtype=float, copy=True), np.array(r5[2], dtype=float, copy=True)
+                wr = copy.deepcopy(wz)
+                wr['gases'][-1].update({'zero': False, 'logmix': -3.0})
+                W5 = cut(out, 'build-world', build, wr)
+                m5 = cut(out, 'build-model', synth.make_model, W5, 'transmission', make_contribs(W5, names, mie), **kw)
+                _same_param_change(m5, changed)
+                with np.errstate(all='ignore'):
+                    r6 = cut(out, 'model', m5.model)
+                out.applies('zero-species-raised')
+                if not close(d5, r6[1], rtol=1e-9, atol=slack) or not close(t5, np.asarray(r6[2]), rtol=1e-9, atol=1e-9):
+                    out.fail('zero-species-raised', '%s raised from 0 to 1e-3 on the live model: differs from a model built with that abundance (max rel %.2e)'
+                             % (zmol, maxrel(d5, r6[1])))
     except CutError:
         pass
     inside = np.any((trans > 0.01) & (trans < 0.99))
